@@ -136,25 +136,37 @@ def run(ctx: Ctx, tier: str) -> Result:
                 res.fail(Finding("C08.SCHEMA", "%s.%s" % (PUSH, conv), "%s.%s" % (cname, pr), cls[0].module.relpath,
                                  "the snapshot model's %s.%s is never put on the wire" % (cname, pr)))
     # the table is converted entry by entry under the same key
-    cl = [f for f in p.functions.values() if f.module.name == PUSH and f.name.endswith("convert_lookup")]
-    need(len(cl) == 1, "__convert_lookup not found")
-    cl = cl[0]
-    st = [n for n in t.nodes_in(cl, ast.Assign) if isinstance(n.targets[0], ast.Subscript)]
-    lps = [l for l in t.nodes_in(cl, ast.For)]
-    dcs = [n for n in t.nodes_in(cl, ast.DictComp)]
+    # (found by role: whatever feeds the `var_lookup` field of the Snapshot message - a helper, or a comprehension in place)
+    csf = p.func(PUSH + ".convert_snapshot")
+    vl_kw = [k.value for c in t.calls_in(csf) for k in c.keywords if k.arg == "var_lookup"]
+    need(len(vl_kw) == 1, "convert_snapshot: var_lookup field of the Snapshot message not found")
+    src_expr = "%s.var_lookup" % csf.params[0]
+    if isinstance(vl_kw[0], ast.Call) and t.resolve_call(vl_kw[0], csf).repo:
+        cl = t.resolve_call(vl_kw[0], csf).repo[0]
+        if not (vl_kw[0].args and norm(vl_kw[0].args[0]) == src_expr):
+            res.fail(Finding("C08.SCHEMA", csf.qname, vl_kw[0], csf.loc(vl_kw[0]), "the variable table sent is not converted from the snapshot's own table"))
+        src_expr = cl.params[0] if cl.params else src_expr
+        st = [n for n in t.nodes_in(cl, ast.Assign) if isinstance(n.targets[0], ast.Subscript)]
+        lps = [l for l in t.nodes_in(cl, ast.For)]
+        dcs = [n for n in t.nodes_in(cl, ast.DictComp)]
+    else:
+        cl = csf
+        st, lps = [], []
+        dcs = [vl_kw[0]] if isinstance(vl_kw[0], ast.DictComp) else []
     okl = False
     if len(st) == 1 and len(lps) == 1:
         okl = isinstance(lps[0].target, ast.Tuple) and norm(st[0].targets[0].slice) == norm(lps[0].target.elts[0]) \
             and isinstance(st[0].value, ast.Call) and st[0].value.args and norm(st[0].value.args[0]) == norm(lps[0].target.elts[1]) \
-            and norm(lps[0].iter) == "%s.items()" % cl.params[0] and not [n for n in ast.walk(lps[0]) if isinstance(n, (ast.Break, ast.Continue, ast.If))]
+            and norm(lps[0].iter) == "%s.items()" % src_expr and not [n for n in ast.walk(lps[0]) if isinstance(n, (ast.Break, ast.Continue, ast.If))]
     elif len(dcs) == 1 and not st:
         dc = dcs[0]
         g0 = dc.generators[0]
         okl = len(dc.generators) == 1 and not g0.ifs and isinstance(g0.target, ast.Tuple) and norm(dc.key) == norm(g0.target.elts[0]) \
             and isinstance(dc.value, ast.Call) and dc.value.args and norm(dc.value.args[0]) == norm(g0.target.elts[1]) \
-            and norm(g0.iter) == "%s.items()" % cl.params[0]
+            and norm(g0.iter) == "%s.items()" % src_expr
     if okl:
-        conv_ok = any(x.name.endswith("convert_variable") for n in t.nodes_in(cl, ast.Call) for x in t.resolve_call(n, cl).repo)
+        scope_ = dcs[0] if (cl is csf and dcs) else cl.node
+        conv_ok = any(x.name.endswith("convert_variable") for n in ast.walk(scope_) if isinstance(n, ast.Call) for x in t.resolve_call(n, cl).repo)
         okl = conv_ok
     if okl:
         res.ok("C08.SCHEMA", {"var_lookup": "every entry converted under its own id"})
@@ -224,13 +236,16 @@ def run(ctx: Ctx, tier: str) -> Result:
         res.ok("C08.SOURCE", {"constants": consts})
     else:
         res.fail(Finding("C08.SOURCE", em.name, "WATCH_SOURCE_*", em.relpath, "watch source constants %s do not equal the WatchSource enum names %s" % (consts, names)))
-    cws = [f for f in p.functions.values() if f.module.name == PUSH and f.name.endswith("convert_watch_source")]
-    need(len(cws) == 1, "__convert_watch_source not found")
-    r_ = [r for r in t.nodes_in(cws[0], ast.Return)]
-    if len(r_) == 1 and norm(r_[0].value) == "WatchSource.Value(%s)" % cws[0].params[0]:
-        res.ok("C08.SOURCE", {"converted by": norm(r_[0].value)})
+    # (by role: whatever feeds the `source` field of the WatchResult message, expanded through a small helper if there is one)
+    cwf = [f for f in p.functions.values() if f.module.name == PUSH and any(k.arg == "source" for c in t.calls_in(f) for k in c.keywords)]
+    need(len(cwf) == 1, "the function that builds the WatchResult message (source=...) was not found")
+    skw = [k.value for c in t.calls_in(cwf[0]) for k in c.keywords if k.arg == "source"]
+    sx = ctx.expand.expand(skw[0], cwf[0])
+    wparam = P(cwf[0], 0)
+    if sx and all("WatchSource.Value(" in x and (x.endswith("(%s.source)" % wparam) or x.endswith("(%s._WatchResult__source)" % wparam)) for x in sx):
+        res.ok("C08.SOURCE", {"converted by": sx[0]})
     else:
-        res.fail(Finding("C08.SOURCE", cws[0].qname, r_[0] if r_ else "<return>", cws[0].loc(), "the watch source is not converted by enum name"))
+        res.fail(Finding("C08.SOURCE", cwf[0].qname, skw[0], cwf[0].loc(skw[0]), "the watch source is not converted by enum name from the watch result's own source: %s" % sx))
 
     # ---------------- AUTH
     gs = p.cls("deep.grpc.grpc_service.GRPCService")
